@@ -208,7 +208,13 @@ func runTx(h *wafHandle, s *TxScript) *Outcome {
 			if r.ID == s.ID {
 				ids := append([]int(nil), r.RuleIDs...)
 				sort.Ints(ids)
-				out.Audit = append(out.Audit, fmt.Sprintf("rules=%v", ids))
+				parts := ""
+				if r.Log != nil {
+					for _, p := range r.Log.Parts() {
+						parts += string(rune(p))
+					}
+				}
+				out.Audit = append(out.Audit, fmt.Sprintf("parts=%s rules=%v", parts, ids))
 			}
 		}
 	}
